@@ -51,6 +51,7 @@ def run(ctx: Ctx, rep: Report) -> None:
     rep.rule("C11-R2", "encrypt / decrypt arguments carry the localised key, engine id, boots, time, (salt,) data in Protocol order", floor=3)
     rep.rule("C11-R3", "the privacy key is the privacy password localised with the user's authentication hash", floor=4)
     rep.rule("C11-R4", "priv flag and encryption branch use the same predicate", floor=1)
+    rep.rule("C11-R5", "the engine id, boots and time handed to the encryption step are the discovered authoritative ones (shared with C10-R2 / C12-R2)", floor=5)
     rep.assumptions += ["properties of any concrete cipher plug-in (only decrypt(encrypt(x)) = x is assumed by the property)", "incoming flag / payload-type disagreement ends in an exception (argued in DESIGN.md; not decided here)"]
     params_cls = ctx.u.cls("puresnmp_plugins.security.usm:USMSecurityParameters")
     # ------------------------------------------------------------ outgoing
@@ -94,7 +95,7 @@ def run(ctx: Ctx, rep: Report) -> None:
             ok = False
             detail.append(repr(o))
             continue
-        exp = defs.expand(o.stmt.value)
+        exp = ctx.xexpand(fn, o.stmt.value, stop=[enc_name, salt_name] if enc_name else [])
         kw = {k.arg: k.value for k in exp.keywords} if isinstance(exp, ast.Call) else {}
         sp = kw.get("scoped_pdu")
         good = isinstance(exp, ast.Call) and norm(exp.func) == "replace" and exp.args and norm(exp.args[0]) == msg_param and sp is not None and norm(sp) == f"OctetString({enc_name})"
@@ -159,6 +160,15 @@ def run(ctx: Ctx, rep: Report) -> None:
             kw = {k.arg: norm(k.value) for k in n.keywords}
             ok = kw == {"scoped_pdu": f"ScopedPDU.decode({dname})"}
     rep.check(ok, "C11-R2", dfn.site(), "the decrypted octets are parsed as scoped PDU and replace only the ciphertext in the message", key=f"{dfn.key}|decrypt-result")
+
+    from . import c10, c12
+
+    sub = Report(rep.prop, rep.tier)
+    c10.run(ctx, sub)
+    rep.adopt_rules(sub, "C11-R5", ["C10-R2"])
+    sub = Report(rep.prop, rep.tier)
+    c12.run(ctx, sub)
+    rep.adopt_rules(sub, "C11-R5", ["C12-R2"])
 
     # ------------------------------------------------------------ R3
     lk = ctx.fn(LOCALISE)
